@@ -173,3 +173,25 @@ Definition SMaskDisciplined (s : store V) (h : list (sop V M IX)) : Prop :=
   SDisciplinedWith g sm true (pre_ok g sm) s h.
 
 End ScopedNow.
+
+(** ** agreement of two executions (the "later history" simulation of C02, State/Revert.v) *)
+From Leaspy Require Import State.Revert.
+
+Section ScopedSim.
+Variables V M IX : Type.
+Variable g : graph V.
+
+(** two events of two executions: the same primitive, executed in pairwise equivalent stores *)
+Definition ev_sim (e1 e2 : event V M IX) : Prop := snd e1 = snd e2 /\ sim_store g (fst e1) (fst e2).
+
+(** results agree: the same operation with the same result, except where the operation inspects the cache itself
+    ([cache_blind], as in [outs_agree]); the same fork mode and an undo log over the same variables *)
+Definition obs_agree (a b : obs V M IX) : Prop :=
+  match a, b with
+  | OOut o r, OOut o' r' => o = o' /\ (cache_blind g o = true -> r = r')
+  | OSeen k m f, OSeen k' m' f' => k = k' /\ m = m' /\ option_map (map fst) f = option_map (map fst) f'
+  | OBad k, OBad k' => k = k'
+  | _, _ => False
+  end.
+
+End ScopedSim.
